@@ -218,8 +218,20 @@ def _angle_obj(cls, x):
     return {"dec": an.DECAngle, "hp": an.dec2hpa, "gon": an.dec2gona, "dms": an.dec2dms, "ddm": an.dec2ddm}[cls](x)
 
 
+_ZD_OK = ("geo2grid", "grid2geo", "llh2xyz", "xyz2llh", "polar2rect", "rect2polar", "vincdir", "vincinv", "vincinv_utm", "vincdir_utm", "vincinv_utm_x",
+          "line_sf", "line_sf_x", "enu2xyz", "xyz2enu", "rho_nu", "rotation_matrix", "vcv_cart2local", "vcv_local2cart", "relative_error", "circ_hz_pu",
+          "first_vel", "refractivity", "va_conv", "joins", "radiations", "conform7", "conform14", "mga", "atrf", "ntv2")
+
+
 def build_args(call):
-    """-> (callable, positional args list, names of the mutable args to watch)"""
+    """-> (callable, positional args list)"""
+    fn, args = _build_args(call)
+    if call["a"].get("zd"):
+        args = [np.asarray(x) if type(x) is float else x for x in args]
+    return fn, args
+
+
+def _build_args(call):
     fn, a = call["fn"], call["a"]
     _ARR_KIND[0] = a.get("arr", "c")
     cv, gd, stt, sv, tf, c = (repo.mod("geodepy." + m) for m in ("convert", "geodesy", "statistics", "survey", "transform", "constants"))
@@ -649,11 +661,15 @@ def call_strategy(families=False):
     def with_rep(entry):
         # calls that carry covariance arrays: the array may be a view into a larger array of the caller's, or Fortran-ordered
         def inject(t):
-            call, kind = t
+            call, kind, zd = t
             if any(call["a"].get(k) is not None for k in ("vcv", "v1")) and kind != "c":
-                return {"fn": call["fn"], "a": dict(call["a"], arr=kind)}
+                call = {"fn": call["fn"], "a": dict(call["a"], arr=kind)}
+            if zd and call["fn"] in _ZD_OK:
+                # plain numbers handed over as numpy 0-d arrays (an element of a table taken with [i, j, ...], np.asarray(x)): the only
+                # representation of a scalar that a callee can modify in place
+                call = {"fn": call["fn"], "a": dict(call["a"], zd=True)}
             return call
-        return st.tuples(entry, st.sampled_from(["c", "c", "c", "view", "f"])).map(inject)
+        return st.tuples(entry, st.sampled_from(["c", "c", "c", "view", "f"]), st.sampled_from([False] * 7 + [True])).map(inject)
     pool = [with_rep(e) for e in pool]
     if families:
         return st.one_of(*[_family(e) for e in pool])
